@@ -9,8 +9,9 @@ from harness import core, translate
 
 props = [json.loads(l)["id"] for l in open(os.path.join(core.VERIF, "properties.jsonl"))]
 targets = []
+claimed = json.load(open(os.path.join(core.VERIF, "harness", "claimed.json")))
 for pid in props:
-    if os.path.exists(os.path.join(core.VERIF, "harness", "props", pid + ".py")):
+    if pid in claimed and os.path.exists(os.path.join(core.VERIF, "harness", "props", pid + ".py")):
         m = importlib.import_module("harness.props." + pid).META
         if m.get("not_applicable"):
             continue
